@@ -140,7 +140,9 @@ def run(seed, tier, lean) -> Result:
     for i, (spec, inst, r) in enumerate(cases):
         res.evaluations += 1
         mo = model[i].get('model') if model is not None else None
-        v = check_case(spec, inst, mo, r, res)
+        from ..common import guarded
+        done, v = guarded(res, check_case, spec, inst, mo, r, res)
+        if not done: continue
         if depth_and_redefs(spec): res.nontrivial.add(canon_hash(spec)); res.bump('depth>=3 with redefinition')
         for a in spec['assets']:
             for s in a['attackSteps']:
